@@ -446,15 +446,21 @@ def unackFinish (s : State) (now : Nat) : State :=
     prepareFinished { s with recvState := .Finished } (if s.condition == .NoError then none else some s.cfg.dst)
   else shutdown s now
 
+/-- unacknowledged mode: without acknowledgements what is missing cannot be asked for again — a
+CheckLimitReached fault; false = the fault handler stopped the transaction -/
+def unackCheckMissing (s : State) (now : Nat) : State × Bool :=
+  if s.md.isNone || (isFileTransfer s && hasNaks s) then handleFault s .CheckLimitReached now
+  else (s, true)
+
+/-- unacknowledged mode, EOF recorded: completeness check, then finalisation -/
+def unackComplete (s : State) (now : Nat) : State :=
+  let f := unackCheckMissing s now
+  if !f.2 then f.1 else unackFinish f.1 now
+
 /-- unacknowledged mode: a NoError EOF reaching a transaction that is still receiving -/
 def unackEofNoError (s : State) (e : Eof) (now : Nat) : State :=
   let s := checkFileSize s e.fileSize now
-  let s := { s with fileSize := some e.fileSize }
-  -- without acknowledgements what is missing cannot be asked for again
-  let f :=
-    if s.md.isNone || (isFileTransfer s && hasNaks s) then handleFault s .CheckLimitReached now
-    else (s, true)
-  if !f.2 then f.1 else unackFinish f.1 now
+  unackComplete { s with fileSize := some e.fileSize } now
 
 /-- unacknowledged mode: EOF -/
 def unackEof (s : State) (e : Eof) (now : Nat) : State :=
